@@ -114,6 +114,7 @@ def readJson (r : Read) : Json :=
 
 def showErr : Err → String
   | .attribute => "attribute" | .assertion => "assertion" | .value => "value" | .key => "key" | .cmdline => "cmdline"
+  | .template => "template"
 
 /-- file path ↦ records, from the `write` events -/
 def filesOf (ws : List Writer) (evs : List Event) : List (String × List Read) :=
@@ -166,7 +167,10 @@ def opPipeline (line : String) : String :=
       let ads2 ← (← (← j.getObjVal? "adapters2").getArr?).toList.mapM parseMatchable
       let reads ← (← (← j.getObjVal? "reads").getArr?).toList.mapM parseRead
       let reads2 ← (← (← j.getObjVal? "reads2").getArr?).toList.mapM parseRead
-      if o.paired then
+      -- `Renamer.__init__` / `PairedEndRenamer.__init__` reject unknown placeholders (InvalidTemplate → command-line error)
+      if (match o.rename with | some t => !renameVarsOK o.paired t | none => false) then
+        pure (Json.mkObj [("error", "cmdline"), ("stage", "setup")]).compress
+      else if o.paired then
         match makePaired o ads ads2 with
         | .error e => pure (Json.mkObj [("error", showErr e), ("stage", "setup")]).compress
         | .ok (p, f) =>
